@@ -4,13 +4,13 @@ from harness import common as C, camxlib as L, gen_camx
 from harness.props import c09
 
 ID = 'C14'
-N = {'quick': 60, 'thorough': 1200}          # files; each contributes one full-sweep case + ~25 Coq-evaluated cuts
+N = {'quick': 40, 'thorough': 1200}          # files; each contributes one full-sweep case + 16-22 Coq-evaluated cuts
 SEARCH_N = {'quick': 80, 'thorough': 400}
 SHARD = 60
 CASE_TIMEOUT = 120.0
 RULE = ('per generated uamiv file: (a) EVERY byte prefix opened by the library Memmap reader and judged by a Python oracle (exception, or k>=1 '
         'complete steps identical to the full file\'s data and time flags); (b) a subset of cuts (every record marker, +-1 and +-4 bytes around '
-        'step boundaries, random others) evaluated in Coq against the reader model (F) and the statement (S). Non-trivial = a cut that '
+        'step boundaries always included, random others) evaluated in Coq against the reader model (F) and the statement (S). Non-trivial = a cut that '
         'the reader accepted, or any Coq-evaluated cut.')
 TRUSTED = c09.TRUSTED + ['numpy.memmap refuses offset+itemsize beyond the file and empty maps (modelled as Err)']
 ASSUMPTIONS = ['file size < 2^53 so that the float quotient in the partial-time test is exact (C14_partial_time_test is over exact rationals)']
@@ -18,8 +18,12 @@ LEVEL_TEXT = ('Theorems (Props/C14.v): for EVERY well-formed UAM-IV file and EVE
               'exactly header + k whole steps and it presents exactly the first k steps (C14_uamiv_every_prefix), the reader\'s result depends only '
               'on the bytes that exist (C14_uamiv_reader_local), the partial-time test on the translated expression is divisibility '
               '(C14_partial_time_test), and at specification level any accepted prefix decodes to a prefix of the records (C14_spec_prefix). '
-              'Tie T: block sizes/dtypes from Gen/Camx.v. Tie H: library reader on every byte prefix vs model/statement.')
-LEVEL_NOTE = 'Trusted: Coq kernel+vm_compute, py2coq, harness. Other formats: every-prefix sweep judged by the Python oracle only.'
+              'Tie T: block sizes/dtypes from Gen/Camx.v. Tie H: library reader on every byte prefix vs model/statement. '
+              'LATERAL BOUNDARY files: C14_lbdy_every_prefix and C14_lbdy_reader_local (same statements for the lateral_boundary reader model); '
+              'C14_lbdy_ntimes_is_floor shows that the reader\'s own ntimes test can never fire (floor divisions) - ragged prefixes are rejected by '
+              'numpy.memmap\'s whole-number-of-items rule, which the model states explicitly. A subset of cuts of generated boundary files is '
+              'evaluated in Coq (constructor L), the full byte sweep stays in Python.')
+LEVEL_NOTE = 'Trusted: Coq kernel+vm_compute, py2coq, harness. Met formats other than lateral_boundary: every-prefix sweep judged by the Python oracle only.'
 TECHNIQUE = 'Coq proof (prefix theorem for the reader model) + exhaustive byte-prefix sweep per generated file'
 
 
@@ -39,6 +43,25 @@ def _boundaries(c):
     return n, bs
 
 
+def _pick_cuts(rng, bs, nwords, hdr_n, per_step, nsteps, count=16):
+    """byte cuts evaluated in Coq: ALWAYS every whole-step boundary (end of header, end of each step) and its +-1 / +-4
+    byte neighbours; then record markers +-1/+-4 and random offsets up to `count` cuts"""
+    must = set()
+    for k in range(nsteps + 1):
+        b = bs[hdr_n - 1 + k * per_step]
+        must.update(4 * b + dlt for dlt in (0, -1, 1, -4, 4))
+    must = sorted(x for x in must if 0 <= x < 4 * nwords)
+    cuts = set()
+    for b in bs:
+        for dlt in (0, -1, 1, -4, 4):
+            cuts.add(4 * b + dlt)
+    for _ in range(6):
+        cuts.add(rng.randint(0, 4 * nwords - 1))
+    cuts = sorted(x for x in cuts if 0 <= x < 4 * nwords and x not in must)
+    rng.shuffle(cuts)
+    return must + cuts[:max(2, count - len(must))]
+
+
 def gen(rng, n, tier):
     out = []
     for i in range(n):
@@ -46,15 +69,7 @@ def gen(rng, n, tier):
         c['steps'] = c['steps'] + ([dict(c['steps'][-1])] if tier == 'search' else [])
         nwords, bs = _boundaries(c)
         out.append(dict(kind='sweep', content=c, cuts='all'))
-        cuts = set()
-        for b in bs:
-            for dlt in (0, -1, 1, -4, 4):
-                cuts.add(4 * b + dlt)
-        for _ in range(6):
-            cuts.add(rng.randint(0, 4 * nwords - 1))
-        cuts = sorted(x for x in cuts if 0 <= x < 4 * nwords)
-        rng.shuffle(cuts)
-        for x in cuts[:25]:
+        for x in _pick_cuts(rng, bs, nwords, 4, 1 + len(c['names']) * c['nz'], len(c['steps'])):
             out.append(dict(kind='cut', content=c, cut=x))
     return out
 
@@ -129,11 +144,32 @@ from harness import camxfmt as M, metcheck as MC  # noqa
 _gen_u = gen
 
 
+def _lb_cuts(rng, c, count=16):
+    """byte cuts of a lateral-boundary file evaluated in Coq (see _pick_cuts)"""
+    recs = M.records(c)
+    bs, i = [], 0
+    for r in recs:
+        i += len(r) + 2
+        bs.append(i)
+    per_step = 1 + 4 * len(c['names'])
+    return _pick_cuts(rng, bs, i, len(recs) - per_step * len(c['steps']), per_step, len(c['steps']), count)
+
+
 def gen(rng, n, tier):  # noqa: F811
     out = _gen_u(rng, n, tier)
     for i in range(n):
         c = MC.gen_any(rng, tier=tier, min_steps=2)
         out.append(dict(kind='met-sweep-' + c['fmt'], content=c, write=False, sweep=True))
+    # lateral-boundary files: a subset of cuts evaluated in Coq (Model/Lbdy.v); the full Python sweep of every prefix
+    # runs on the lateral_boundary share of the met-sweep stream above (and on every third file of this stream)
+    for i in range(max(1, n // 6)):
+        c = M.gen_lb(rng, tier)
+        if tier == 'search' or len(c['steps']) < 2:
+            c['steps'] = c['steps'] + [dict(c['steps'][-1])]
+        if i % 3 == 0:
+            out.append(dict(kind='met-sweep-lateral_boundary', content=c, write=False, sweep=True))
+        for x in _lb_cuts(rng, c):
+            out.append(dict(kind='lbdy-cut', content=c, cut=x))
     return out
 
 
@@ -141,6 +177,8 @@ _impl_u = impl
 
 
 def impl(case):  # noqa: F811
+    if MC.is_lb(case):
+        return MC.run_lb(case)
     if case['kind'].startswith('met-'):
         return MC.run_met(case)
     return _impl_u(case)
@@ -150,6 +188,8 @@ _coq_u = coq_term
 
 
 def coq_term(case, obs):  # noqa: F811
+    if MC.is_lb(case):
+        return None if 'raises' in obs else MC.lb_term_read(case, obs)
     if case['kind'].startswith('met-'):
         return None
     return _coq_u(case, obs)
@@ -159,6 +199,13 @@ _py_u = py_check
 
 
 def py_check(case, obs):  # noqa: F811
+    if MC.is_lb(case):
+        if 'raises' in obs:
+            return dict(s_ok=False, why='harness/impl raised ' + str(obs))
+        why = MC.lb_py_check(case, obs)
+        if (obs.get('full') or {}).get('status') != 'ok':
+            why.append('library reader %s on the whole file' % (obs.get('full') or {}).get('status'))
+        return dict(s_ok=not why, region=0, why='; '.join(why[:3]))
     if not case['kind'].startswith('met-'):
         return _py_u(case, obs)
     if 'raises' in obs:
@@ -189,6 +236,8 @@ _nt_u = nontrivial
 
 
 def nontrivial(case, obs):  # noqa: F811
+    if MC.is_lb(case):
+        return True
     if case['kind'].startswith('met-'):
         return len(obs.get('sweep', {}).get('accepted', [])) > 0
     return _nt_u(case, obs)
